@@ -7,21 +7,34 @@ delta-minimised over the AST; the mechanism signature is the feature set of the 
 from __future__ import annotations
 
 import random
+import time
 
 from vf.core.obs import Obs, cpu_guard, CpuBudget, exc_sig, h64
 from vf.core import anchors
 from vf.gen import expansion as G
-from vf.ref.transclusion import Ref, Cycle
+from vf.ref.transclusion import Ref, Cycle, key_of
 
 LEVEL = "exploration"
 RULE = ("(library, page) pairs: acyclic libraries of <=5 templates, bodies/pages from the expansion grammar "
         "(text | param ref with/without default | call with positional/named/numeric args | #if | #ifeq | #switch | "
         "include tags), depth <=4, alphabet [a-z0-9é語] + blank/tab/newline + list/table markers at value starts; "
+        "widenings applied to a share of the main cases: '=' in text wherever the call syntax does not read it as the "
+        "name/value separator (body/page text, named values, defaults, #if/#ifeq arguments, #switch results), lone #switch "
+        "cases that are parameter references, include tags nested in each other (onlyinclude inside noinclude/includeonly, "
+        "noinclude inside includeonly ...), calls nested up to 3 deep inside argument NAMES (with a template that echoes "
+        "a key, so that the computed name shows), names with a run of blanks / tab / newline inside ('k  k' vs 'k k'), "
+        "a template forwarding a parameter positionally / as a lone #switch case to a template that shows it; "
         "classes: main, pos-trailing-newline (tagged), numeric-comparands (tagged). non-trivial = distinct pair with >=1 call "
         "resolving to an existing template and >=1 parameter reference evaluated by the reference")
 ASSUMPTIONS = [
     "reference = the rules named in the property statement, evaluated on the generating AST (never parses wikitext)",
-    "text alphabet contains no '=', '|', braces or brackets (they would change the argument structure)",
+    "text alphabet contains no '|', braces or brackets (they would change the argument structure); '=' never stands at the "
+    "top level of a positional argument, an argument name, the #switch subject or a lone #switch case in the SOURCE text "
+    "(there it is the name/value separator)",
+    "an undefined parameter without default stays literal = the reference text as written, blanks in the name included",
+    "argument and parameter names are trimmed, not normalised: a run of blanks inside a name is part of the name; an "
+    "argument name is not empty in the source text",
+    "onlyinclude present anywhere in the body (also inside noinclude) selects the transcluded text",
 ]
 WALL = {"quick": 900, "thorough": 5400}
 CLASSES = ["main", "main", "main", "main", "main", "main", "pos-trailing-newline", "numeric-comparands"]
@@ -35,6 +48,13 @@ def floors(tier):
             "counters.rule.if-true": 10, "counters.rule.ifeq-eq": 5, "counters.rule.switch-match": 5,
             "counters.tag.noinclude": 5, "counters.tag.onlyinclude": 5, "counters.tag.includeonly": 5,
             "counters.tag.comment-with-inclusion-tag": 5,
+            "counters.tag.equals-in-text": 300, "counters.tag.switch-lone-case-param": 20,
+            "counters.tag.forwarded-positional-param": 100, "counters.tag.name-blank-run": 200,
+            "counters.rule.arg-name-blank-run": 100,
+            "counters.tag.include-tags-nested": 50, "counters.tag.onlyinclude-in-noinclude": 20,
+            "counters.tag.call-in-arg-name": 100, "counters.tag.call-in-arg-name-depth3": 20,
+            "counters.rule.arg-name-computed": 100, "counters.rule.param-undefined-literal-blank-name": 20,
+            "counters.rule.equals-in-param-value": 50, "counters.rule.onlyinclude-inside-noinclude": 10,
             "anchors.core.Wtp._template_to_body": 100, "anchors.parserfns.if_fn": 10}
 
 
@@ -70,7 +90,393 @@ def make_case(rng, cls):
     if cls == "numeric-comparands":
         page = ("S", page[1] + [("EQ", ("S", [("T", rng.choice(["1", "01", "1.0", "+1"]))]),
                                  ("S", [("T", rng.choice(["1", "01", "1.0"]))]), ("S", [("T", "same")]), ("S", [("T", "diff")]))])
+    if cls == "main":
+        lib, page = widen(rng, lib, page, tags)
     return lib, page, tags
+
+
+# ---------------------------------------------------------------------------------------------
+# widenings of the main workload (C04 only; the shared grammar generator stays as it is)
+
+EQ_TEXTS = ["=", "k=v", "n=b", "1=z", "m =", " = ", "=x", "2=", "a=b=c"]
+NAME_TAILS = ["", "", "", "", "z", " "]
+NAME_VALUES = ["b", "c", "x1", " a", "", "2"]
+
+
+def _walk_eq(a, free, fn):
+    """Rebuild AST a; fn(textnode) is applied to T nodes standing where MediaWiki does NOT read an '=' as the
+    name/value separator (free=True).  Not free: top level of a positional argument, of an argument name, of the
+    #switch subject and of a lone #switch case."""
+    k = a[0]
+    if k == "T":
+        return fn(a) if free else a
+    if k == "S":
+        return ("S", [_walk_eq(x, free, fn) for x in a[1]])
+    if k == "P":
+        return a if a[3] is None else ("P", a[1], a[2], _walk_eq(a[3], True, fn))
+    if k == "C":
+        args = []
+        for x in a[3]:
+            if x[0] == "pos":
+                args.append(("pos", _walk_eq(x[1], False, fn)))
+            elif x[0] == "cnamed":
+                args.append(("cnamed", _walk_eq(x[1], False, fn), _walk_eq(x[2], True, fn), x[3], x[4]))
+            else:
+                args.append(x[:3] + (_walk_eq(x[3], True, fn),) + x[4:])
+        return ("C", a[1], a[2], args)
+    if k in ("IF", "EQ"):
+        return (k,) + tuple(_walk_eq(x, True, fn) for x in a[1:])
+    if k == "SW":
+        return ("SW", _walk_eq(a[1], False, fn),
+                [(c, _walk_eq(v, c is not None, fn)) for c, v in a[2]])
+    if k in ("NOINC", "ONLYINC", "INCONLY"):
+        return (k, _walk_eq(a[1], free, fn))
+    return a
+
+
+def wellformed(a):
+    """False if an '=' stands where the source text would make it a name/value separator (minimisation steps
+    that hoist a value into a positional argument can do that): such a rendering no longer means the AST."""
+    def walk(a, free):
+        k = a[0]
+        if k == "T":
+            return free or "=" not in a[1]
+        if k == "S":
+            return all(walk(x, free) for x in a[1])
+        if k == "P":
+            return a[3] is None or walk(a[3], True)
+        if k == "C":
+            for x in a[3]:
+                if x[0] == "pos":
+                    ok = walk(x[1], False)
+                elif x[0] == "cnamed":
+                    # (an empty name in the source is outside the grammar: the statement's named arguments have one)
+                    ok = walk(x[1], False) and walk(x[2], True) and G.render(x[1]).strip() != ""
+                else:
+                    ok = walk(x[3], True)
+                if not ok:
+                    return False
+            return True
+        if k in ("IF", "EQ"):
+            return all(walk(x, True) for x in a[1:])
+        if k == "SW":
+            return walk(a[1], False) and all(walk(v, c is not None) for c, v in a[2])
+        if k in ("NOINC", "ONLYINC", "INCONLY"):
+            return walk(a[1], free)
+        return True
+    return walk(a, True)
+
+
+def inject_equals(rng, a, tags, p=0.25):
+    def fn(t):
+        if rng.random() < p:
+            tags.add("equals-in-text")
+            e = rng.choice(EQ_TEXTS)
+            i = rng.randint(0, len(t[1]))
+            return ("T", t[1][:i] + e + t[1][i:])
+        return t
+    return _walk_eq(a, True, fn)
+
+
+def switch_lone_params(rng, a, tags, p=0.4):
+    """Template bodies: a lone #switch case may be a parameter reference."""
+    k = a[0]
+    if k == "S":
+        return ("S", [switch_lone_params(rng, x, tags, p) for x in a[1]])
+    if k == "SW":
+        cases = []
+        for c, v in a[2]:
+            if c is None and rng.random() < p:
+                key = rng.choice(G.KEYS)
+                v = ("S", [("P", key, key, None if rng.random() < 0.6 else v)])
+                tags.add("switch-lone-case-param")
+            cases.append((c, v))
+        return ("SW", a[1], cases)
+    if k in ("NOINC", "ONLYINC", "INCONLY"):
+        return (k, switch_lone_params(rng, a[1], tags, p))
+    return a
+
+
+def _has(a, kind):
+    if a[0] == kind:
+        return True
+    if a[0] == "S":
+        return any(_has(x, kind) for x in a[1])
+    if a[0] in ("NOINC", "ONLYINC", "INCONLY"):
+        return _has(a[1], kind)
+    return False
+
+
+def nest_include_tags(rng, body, tags):
+    """Wrap a run of top-level parts of a body in <noinclude> / <includeonly>: the run may contain include tags
+    itself (onlyinclude inside noinclude = documentation around the payload).  Never noinclude inside noinclude or
+    around a part that has one, never onlyinclude inside onlyinclude (the statement does not say what those mean)."""
+    parts = body[1]
+    only = [i for i, x in enumerate(parts) if _has(x, "ONLYINC")]
+    if only and rng.random() < 0.6:
+        i = rng.choice(only)
+        lo, hi = rng.randint(max(0, i - 1), i), rng.randint(i + 1, min(len(parts), i + 2))
+    else:
+        lo = rng.randint(0, len(parts) - 1)
+        hi = rng.randint(lo + 1, len(parts))
+    run = parts[lo:hi]
+    inner = ("S", run)
+    kind = "NOINC" if (not _has(inner, "NOINC") and rng.random() < 0.65) else "INCONLY"
+    if any(_has(x, k) for x in run for k in ("NOINC", "ONLYINC", "INCONLY")):
+        tags.add("include-tags-nested")
+    if kind == "NOINC" and _has(inner, "ONLYINC"):
+        tags.add("onlyinclude-in-noinclude")
+    tags.add({"NOINC": "noinclude", "INCONLY": "includeonly"}[kind])
+    return ("S", parts[:lo] + [(kind, inner)] + parts[hi:])
+
+
+def name_chain(rng, pool, depth, same):
+    """AST of an argument NAME: text and calls only (closed: no parameter references), calls nested in the names
+    of calls up to `depth`; `same` = name of the enclosing call, preferred so that one template is entered again
+    from its own argument name (the library stays acyclic: no BODY calls it)."""
+    name = same if (same in pool and rng.random() < 0.7) else rng.choice(pool)
+    args = []
+    if depth > 1 and rng.random() < 0.85:
+        args.append(("cnamed", name_chain(rng, pool, depth - 1, name), ("S", [("T", rng.choice(NAME_VALUES))]), "", ""))
+    elif rng.random() < 0.3:
+        args.append(("pos", ("S", [("T", rng.choice(G.ATOMS))])))
+    return ("S", [("C", name, name, args), ("T", rng.choice(NAME_TAILS))])
+
+
+def echo_body(rng):
+    """A template whose output is usable as an argument name and depends on the argument of that name:
+    'n{{{n|}}}' -- so that WHICH name a nested call computed shows in the expansion."""
+    key = rng.choice(G.KEYS)
+    raw = rng.choice(["", " "]) + key + rng.choice(["", " "])
+    return ("S", [("T", key), ("P", raw, key, ("S", [("T", "")]))])
+
+
+def echo_call(rng, pool, echo, tags):
+    d = rng.randint(1, 3)
+    tags.add("call-in-arg-name")
+    if d == 3:
+        tags.add("call-in-arg-name-depth3")
+    return ("C", echo, echo, [("cnamed", name_chain(rng, pool, d, echo), ("S", [("T", rng.choice(NAME_VALUES))]),
+                              rng.choice(["", " "]), rng.choice(["", " "]))])
+
+
+def add_name_calls(rng, a, pool, tags, p):
+    """Give some calls an extra argument whose NAME is computed by nested calls."""
+    k = a[0]
+    if k == "S":
+        return ("S", [add_name_calls(rng, x, pool, tags, p) for x in a[1]])
+    if k == "P":
+        return a if a[3] is None else ("P", a[1], a[2], add_name_calls(rng, a[3], pool, tags, p))
+    if k == "C":
+        args = []
+        for x in a[3]:
+            if x[0] == "pos":
+                args.append(("pos", add_name_calls(rng, x[1], pool, tags, p)))
+            elif x[0] == "named":
+                args.append(x[:3] + (add_name_calls(rng, x[3], pool, tags, p),) + x[4:])
+            else:
+                args.append(x)
+        if pool and rng.random() < p:
+            d = rng.randint(1, 3)
+            tags.add("call-in-arg-name")
+            if d == 3:
+                tags.add("call-in-arg-name-depth3")
+            args.insert(rng.randint(0, len(args)),
+                        ("cnamed", name_chain(rng, pool, d, a[2]), ("S", [("T", rng.choice(G.ATOMS))]),
+                         rng.choice(["", " "]), rng.choice(["", " "])))
+        return ("C", a[1], a[2], args)
+    if k in ("IF", "EQ"):
+        return (k,) + tuple(add_name_calls(rng, x, pool, tags, p) for x in a[1:])
+    if k == "SW":
+        return ("SW", a[1], [(c, add_name_calls(rng, v, pool, tags, p) if c is not None else v) for c, v in a[2]])
+    if k in ("NOINC", "ONLYINC", "INCONLY"):
+        return (k, add_name_calls(rng, a[1], pool, tags, p))
+    return a
+
+
+def add_forwarder(rng, lib, page, names, tags):
+    """A template that passes one of its parameters on -- as a positional argument of a nested call, or as a lone
+    #switch case -- to a template that shows what it received; the page calls it with a value containing '='."""
+    i = rng.randrange(len(names) - 1)
+    j = rng.randrange(i + 1, len(names))
+    key = rng.choice(G.KEYS)
+    raw = rng.choice(["", " "]) + key + rng.choice(["", " "])
+    ref = ("P", raw, key, None if rng.random() < 0.7 else ("S", [("T", rng.choice(EQ_TEXTS))]))
+    if rng.random() < 0.7:
+        fwd = ("C", names[j], names[j], [("pos", ("S", [("T", rng.choice(["", "", " "])), ref]))])
+        k2 = rng.choice(G.KEYS)
+        show = [("T", "["), ("P", "1", "1", None), ("P", k2, k2, ("S", [("T", "-")])), ("T", "]")]
+        b = lib[names[j]]
+        lib[names[j]] = ("S", b[1] + show)
+        tags.add("forwarded-positional-param")
+    else:
+        subj = rng.choice(["x", "a", "2"])
+        fwd = ("SW", ("S", [("T", subj)]), [(None, ("S", [ref])), ("y", ("S", [("T", "Y")])),
+                                             (None, ("S", [("T", rng.choice(["d", subj]))]))])
+        tags.add("switch-lone-case-param")
+    b = lib[names[i]]
+    k = rng.randint(0, len(b[1]))
+    lib[names[i]] = ("S", b[1][:k] + [fwd] + b[1][k:])
+    val = ("S", [("T", rng.choice(EQ_TEXTS + ["x=q", "a=", "2 = 2"]))])
+    tags.add("equals-in-text")
+    call = ("C", names[i], names[i], [("named", raw, key, val, rng.choice(["", " "]), rng.choice(["", " "]))])
+    k = rng.randint(0, len(page[1]))
+    return lib, ("S", page[1][:k] + [call] + page[1][k:])
+
+
+BLANK_RUNS = ["  ", "\t", "\n", " \t", "   "]
+
+
+def vary_name_blanks(rng, a, tags, p):
+    """Names with a blank inside ('k k'): sometimes written with a run of blanks / a tab / a newline instead.  That
+    is a different name (names are trimmed, not normalised)."""
+    def fn(a):
+        if a[0] == "P" and " " in a[2] and rng.random() < p:
+            run = rng.choice(BLANK_RUNS)
+            tags.add("name-blank-run")
+            return ("P", a[1].replace(a[2], a[2].replace(" ", run)), a[2].replace(" ", run), a[3])
+        if a[0] == "C" and any(x[0] == "named" and " " in x[2] for x in a[3]):
+            args = []
+            for x in a[3]:
+                if x[0] == "named" and " " in x[2] and rng.random() < p:
+                    run = rng.choice(BLANK_RUNS)
+                    tags.add("name-blank-run")
+                    args.append(("named", x[1].replace(x[2], x[2].replace(" ", run)), x[2].replace(" ", run)) + x[3:])
+                else:
+                    args.append(x)
+            return ("C", a[1], a[2], args)
+        return a
+    return _map(a, fn)
+
+
+def widen(rng, lib, page, tags):
+    names = list(lib)
+    if rng.random() < 0.5:
+        p = rng.choice([0.2, 0.5])
+        lib = {n: vary_name_blanks(rng, b, tags, p) for n, b in lib.items()}
+        page = vary_name_blanks(rng, page, tags, p)
+    r = rng.random()
+    if r < 0.30:
+        lib = {n: inject_equals(rng, switch_lone_params(rng, b, tags), tags) for n, b in lib.items()}
+        page = inject_equals(rng, page, tags)
+        if len(names) >= 2 and rng.random() < 0.6:
+            lib, page = add_forwarder(rng, lib, page, names, tags)
+    elif r < 0.45:
+        # (on the page only, and at most one echo call per body below: name calls in every body multiply through the
+        #  call DAG and make single expansions take many seconds)
+        page = add_name_calls(rng, page, names, tags, rng.choice([0.1, 0.3]))
+        if rng.random() < 0.8:
+            # one template echoes a key; calls of it with computed names are placed on the page and in the bodies of
+            # the templates before it
+            j = rng.randrange(len(names))
+            echo = names[j]
+            lib[echo] = echo_body(rng)
+            tags.add("echo-template")
+            for i in range(j):
+                if rng.random() < 0.4:
+                    b = lib[names[i]]
+                    k = rng.randint(0, len(b[1]))
+                    lib[names[i]] = ("S", b[1][:k] + [echo_call(rng, names[i + 1:], echo, tags)] + b[1][k:])
+            k = rng.randint(0, len(page[1]))
+            page = ("S", page[1][:k] + [echo_call(rng, names, echo, tags)] + page[1][k:])
+    lib = {n: (nest_include_tags(rng, b, tags) if cfg_tags(b) and rng.random() < 0.5 else b) for n, b in lib.items()}
+    return lib, page
+
+
+def cfg_tags(body):
+    return any(_has(body, k) for k in ("NOINC", "ONLYINC", "INCONLY"))
+
+
+# ---------------------------------------------------------------------------------------------
+# reference: the shared evaluator, with the C04 reading where the shared one follows the implementation
+
+def includable4(body):
+    """outside noinclude, inside onlyinclude IF PRESENT (anywhere, also within noinclude/includeonly), includeonly
+    unwrapped, comments removed."""
+    onlys = []
+
+    def find(a, in_noinc):
+        k = a[0]
+        if k == "ONLYINC":
+            onlys.append((a[1], in_noinc))
+        elif k == "S":
+            for x in a[1]:
+                find(x, in_noinc)
+        elif k in ("NOINC", "INCONLY"):
+            find(a[1], in_noinc or k == "NOINC")
+
+    def strip(a):
+        if a[0] != "S":
+            return a
+        out = []
+        for x in a[1]:
+            if x[0] in ("NOINC", "COMMENT"):
+                continue
+            out.append(strip(x[1]) if x[0] in ("INCONLY", "ONLYINC") else strip(x))
+        return ("S", out)
+    find(body, False)
+    if onlys:
+        return ("S", [strip(x) for x, _ in onlys]), any(n for _, n in onlys)
+    return strip(body), False
+
+
+class Ref4(Ref):
+    def __init__(self, lib, **kw):
+        super().__init__(lib, **kw)
+        self.only_in_noinc = set()
+        for k, v in lib.items():
+            self.lib[k], flag = includable4(v)
+            if flag:
+                self.only_in_noinc.add(k)
+
+    @staticmethod
+    def key(name):
+        """Key of an argument / parameter name: trimmed, nothing else (a run of blanks inside a name is part of the
+        name); a positive decimal number is the positional index.  Returned in a spelling the shared evaluator
+        (which collapses blank runs in keys) leaves alone: blanks inside the name become private-use characters."""
+        k = name.strip(" \t\n")
+        if k.isdigit() and int(k) > 0:
+            return int(k)
+        return "".join(chr(0xE000 + ord(c)) if c in " \t\n" else c for c in k)
+
+    def ev(self, a, frame, stack=(), full=None):
+        k = a[0]
+        if k == "P":
+            kk = self.key(a[2])
+            if frame is not None and kk in frame:
+                self.hit("param-defined")
+                if frame[kk].endswith("\n"):
+                    self.hit("CLASS:pos-trailing-newline")
+                if "=" in frame[kk]:
+                    self.hit("equals-in-param-value")
+                return frame[kk]
+            if a[3] is not None:
+                self.hit("param-default")
+                return self.ev(a[3], frame, stack, full)
+            # stays literal: the reference as written, not a normalised spelling of it
+            self.hit("param-undefined-literal")
+            if a[1] != a[2]:
+                self.hit("param-undefined-literal-blank-name")
+            return "{{{" + a[1] + "}}}"
+        if k == "C":
+            if a[2] in self.only_in_noinc:
+                self.hit("onlyinclude-inside-noinclude")
+            args = []
+            for x in a[3]:
+                if x[0] == "cnamed":
+                    # the name is expanded in the caller's frame like the value; then it is an ordinary named argument
+                    nm = self.ev(x[1], frame, stack, True)
+                    self.hit("arg-name-computed")
+                    args.append(("named", nm, str(self.key(nm)), x[2], x[3], x[4]))
+                elif x[0] == "named":
+                    kk = self.key(x[2])
+                    if isinstance(kk, str) and any(0xE000 <= ord(c) < 0xE100 for c in kk) and " ".join(x[2].split()) != x[2].strip():
+                        self.hit("arg-name-blank-run")
+                    args.append(x[:2] + (str(kk),) + x[3:])
+                else:
+                    args.append(x)
+            a = ("C", a[1], a[2], args)
+        return super().ev(a, frame, stack, full)
 
 
 _CTX = None
@@ -104,6 +510,7 @@ def run_real(lib, page, kw=None):
     ctx = shared_ctx()
     load_library(ctx, lib)
     ctx.start_page("Pg")
+    LAST["loop-warning"] = False
     try:
         with cpu_guard(20):
             return ctx.expand(G.render(page), **(kw or {}))
@@ -111,10 +518,18 @@ def run_real(lib, page, kw=None):
         return "<<CPU-BUDGET>>"
     except Exception as e:
         return "<<EXC " + exc_sig(e) + ">>"
+    finally:
+        try:
+            LAST["loop-warning"] = any("Template loop detected" in w.get("msg", "") for w in ctx.warnings)
+        except Exception:
+            pass
+
+
+LAST = {"loop-warning": False}
 
 
 def reference(lib, page):
-    r = Ref(lib)
+    r = Ref4(lib)
     try:
         return r.ev(page, None), r
     except Cycle:
@@ -122,6 +537,8 @@ def reference(lib, page):
 
 
 def disagree(lib, page):
+    if not (wellformed(page) and all(wellformed(b) for b in lib.values())):
+        return None
     exp, r = reference(lib, page)
     if exp is None:
         return None
@@ -131,15 +548,21 @@ def disagree(lib, page):
     return None
 
 
+MINIMISE_CPU = 20.0     # CPU seconds per witness (a witness whose single expansion is slow is reported less minimal)
+
+
 def minimise(lib, page, budget=2500):
     """Greedy delta-minimisation over page and library ASTs while the disagreement persists."""
     steps = 0
     improved = True
+    t0 = time.process_time()
     while improved and steps < budget:
         improved = False
+        if time.process_time() - t0 > MINIMISE_CPU:
+            break
         for cand in G.shrinks(page):
             steps += 1
-            if steps > budget:
+            if steps > budget or time.process_time() - t0 > MINIMISE_CPU:
                 break
             if disagree(lib, cand):
                 page = cand
@@ -157,7 +580,7 @@ def minimise(lib, page, budget=2500):
                 break
             for cand in G.shrinks(lib[name]):
                 steps += 1
-                if steps > budget:
+                if steps > budget or time.process_time() - t0 > MINIMISE_CPU:
                     break
                 l2 = dict(lib)
                 l2[name] = cand
@@ -183,11 +606,17 @@ def features(lib, page):
                 f.add("marker-start")
             if s != s.strip(" \t") and s.strip(" \t\n"):
                 f.add("blank-edge")
+            if "=" in s:
+                f.add("equals-in-text")
         elif k == "S":
             for x in a[1]:
                 walk(x, in_body)
         elif k == "P":
             f.add("param-default" if a[3] is not None else "param")
+            if a[1] != a[2]:
+                f.add("param-name-blanks")
+            if _one_blank(a[2]) != a[2].strip(" \t\n"):
+                f.add("name-blank-run")
             if a[3] is not None:
                 walk(a[3], in_body)
         elif k == "C":
@@ -200,10 +629,16 @@ def features(lib, page):
                     walk(x[1], in_body)
                     if G.render(x[1]).endswith("\n"):
                         f.add("pos-trailing-nl")
+                elif x[0] == "cnamed":
+                    f.add("call-in-arg-name")
+                    walk(x[1], in_body)
+                    walk(x[2], in_body)
                 else:
                     f.add("named-arg")
                     if x[4] or x[5] or x[1] != x[2]:
                         f.add("named-pad")
+                    if _one_blank(x[2]) != x[2].strip(" \t\n"):
+                        f.add("name-blank-run")
                     walk(x[3], in_body)
         elif k in ("IF", "EQ"):
             f.add(k.lower())
@@ -217,11 +652,173 @@ def features(lib, page):
         elif k in ("NOINC", "ONLYINC", "INCONLY", "COMMENT"):
             f.add(k.lower())
             if k != "COMMENT":
+                if any(_has(a[1], t) for t in ("NOINC", "ONLYINC", "INCONLY")):
+                    f.add("include-tags-nested")
                 walk(a[1], in_body)
     walk(page, False)
     for b in lib.values():
         walk(b, True)
     return f
+
+
+# Causal classes: an input feature is the mechanism's trigger if taking exactly that feature out of the witness
+# (leaving everything else as it is) makes implementation and reference agree.
+
+def _map(a, fn):
+    """Rebuild AST bottom-up; fn(node) may replace any node (called after its children were rebuilt)."""
+    k = a[0]
+    if k == "S":
+        a = ("S", [_map(x, fn) for x in a[1]])
+    elif k == "P":
+        a = a if a[3] is None else ("P", a[1], a[2], _map(a[3], fn))
+    elif k == "C":
+        args = []
+        for x in a[3]:
+            if x[0] == "pos":
+                args.append(("pos", _map(x[1], fn)))
+            elif x[0] == "cnamed":
+                args.append(("cnamed", _map(x[1], fn), _map(x[2], fn), x[3], x[4]))
+            else:
+                args.append(x[:3] + (_map(x[3], fn),) + x[4:])
+        a = ("C", a[1], a[2], args)
+    elif k in ("IF", "EQ"):
+        a = (k,) + tuple(_map(x, fn) for x in a[1:])
+    elif k == "SW":
+        a = ("SW", _map(a[1], fn), [(c, _map(v, fn)) for c, v in a[2]])
+    elif k in ("NOINC", "ONLYINC", "INCONLY"):
+        a = (k, _map(a[1], fn))
+    return fn(a)
+
+
+def _abl_equals(lib, page):
+    fn = lambda a: ("T", a[1].replace("=", "e")) if a[0] == "T" else a
+    return {n: _map(b, fn) for n, b in lib.items()}, _map(page, fn)
+
+
+def _abl_param_blanks(lib, page):
+    fn = lambda a: ("P", a[2].strip(" \t\n"), a[2], a[3]) if a[0] == "P" else a
+    return {n: _map(b, fn) for n, b in lib.items()}, _map(page, fn)
+
+
+def _one_blank(k):
+    return " ".join(k.split())
+
+
+def _abl_key_blank_runs(lib, page):
+    """Every run of blanks inside an argument / parameter name becomes one blank."""
+    def fn(a):
+        if a[0] == "P" and _one_blank(a[2]) != a[2].strip(" \t\n"):
+            return ("P", _one_blank(a[2]), _one_blank(a[2]), a[3])
+        if a[0] == "C":
+            args = [(("named", _one_blank(x[2]), _one_blank(x[2])) + x[3:])
+                    if x[0] == "named" and _one_blank(x[2]) != x[2].strip(" \t\n") else x for x in a[3]]
+            return ("C", a[1], a[2], args)
+        return a
+    return {n: _map(b, fn) for n, b in lib.items()}, _map(page, fn)
+
+
+def _abl_only_in_noinc(lib, page):
+    """Move every onlyinclude section out of the noinclude around it: <noinclude>a<onlyinclude>b</onlyinclude>c
+    </noinclude> -> <noinclude>a</noinclude><onlyinclude>b</onlyinclude><noinclude>c</noinclude>."""
+    def fn(a):
+        if a[0] != "S":
+            return a
+        out = []
+        for x in a[1]:
+            if x[0] == "NOINC" and _has(x[1], "ONLYINC") and x[1][0] == "S":
+                run = []
+                for y in fn(x[1])[1]:
+                    if _has(y, "ONLYINC"):
+                        if run:
+                            out.append(("NOINC", ("S", run)))
+                            run = []
+                        out.append(y)
+                    else:
+                        run.append(y)
+                if run:
+                    out.append(("NOINC", ("S", run)))
+            else:
+                out.append(x)
+        return ("S", out)
+    return {n: _map(b, fn) for n, b in lib.items()}, page
+
+
+def _abl_name_calls(lib, page):
+    """Replace every computed argument name by the text the reference computes for it (names are closed ASTs:
+    text and calls only, so their value does not depend on the frame)."""
+    r = Ref4(lib)
+
+    def fn(a):
+        if a[0] != "C" or not any(x[0] == "cnamed" for x in a[3]):
+            return a
+        args = []
+        for x in a[3]:
+            if x[0] == "cnamed":
+                nm = r.ev(x[1], None)
+                args.append(("named", nm, nm, x[2], x[3], x[4]))
+            else:
+                args.append(x)
+        return ("C", a[1], a[2], args)
+    return {n: _map(b, fn) for n, b in lib.items()}, _map(page, fn)
+
+
+ABLATIONS = [("equals-from-expansion", "equals-in-text", _abl_equals),
+             ("undefined-param-name-blanks", "param-name-blanks", _abl_param_blanks),
+             ("name-blank-run-collapsed", "name-blank-run", _abl_key_blank_runs),
+             ("onlyinclude-inside-noinclude", "include-tags-nested", _abl_only_in_noinc),
+             ("call-in-arg-name", "call-in-arg-name", _abl_name_calls)]
+
+
+PEELABLE = {"equals-from-expansion", "undefined-param-name-blanks", "name-blank-run-collapsed", "onlyinclude-inside-noinclude"}
+CLASS_PREFIX = "expand!=reference/class="
+
+
+NOT_PEELED = {"call-in-arg-name"}
+
+
+def ablation_classes(lib, page, got, first_only=False, only=None):
+    f = features(lib, page)
+    out = []
+    for name, feat, fn in ABLATIONS:
+        if feat not in f or (only is not None and name not in only):
+            continue
+        try:
+            l2, p2 = fn(lib, page)
+        except Cycle:
+            continue
+        if (l2, p2) == (lib, page) or not (wellformed(p2) and all(wellformed(b) for b in l2.values())):
+            continue
+        if reference(l2, p2)[0] is not None and disagree(l2, p2) is None:
+            if name == "call-in-arg-name":
+                # what the computed name ran into
+                run_real(lib, page)
+                if LAST["loop-warning"]:       # the library is acyclic (the reference evaluated it)
+                    name += ":false-template-loop"
+                elif _numeric_computed_name(lib, page):
+                    name += ":numeric-name"
+            out.append(name)
+            if first_only:
+                break
+    return out
+
+
+def _numeric_computed_name(lib, page):
+    r = Ref4(lib)
+    hit = []
+
+    def fn(a):
+        if a[0] == "C":
+            for x in a[3]:
+                if x[0] == "cnamed":
+                    try:
+                        if isinstance(Ref4.key(r.ev(x[1], None)), int):
+                            hit.append(1)
+                    except Cycle:
+                        pass
+        return a
+    for b in list(lib.values()) + [page]:
+        _map(b, fn)
+    return bool(hit)
 
 
 def classify(lib, page, exp, got, cls):
@@ -234,6 +831,9 @@ def classify(lib, page, exp, got, cls):
     classes = sorted(k[6:] for k in r.rules if k.startswith("CLASS:"))
     if classes:
         return "expand!=reference/class=" + "+".join(classes)
+    ab = ablation_classes(lib, page, got)
+    if ab:
+        return "expand!=reference/class=" + "+".join(ab)
     f = features(lib, page)
     return "expand!=reference/" + "+".join(sorted(f))
 
@@ -250,14 +850,22 @@ def run_shard(spec):
                    "common.add_newline_to_expansion": add_newline_to_expansion,
                    "parserfns.if_fn": PF.if_fn, "parserfns.ifeq_fn": PF.ifeq_fn, "parserfns.switch_fn": PF.switch_fn})
     minimised = 0
+    reported = {}
     for i in range(spec["n"]):
         cls = CLASSES[i % len(CLASSES)]
         lib, page, tags = make_case(rng, cls)
+        t0 = time.process_time()
         exp, r = reference(lib, page)
         if exp is None:
             obs.count("reference-cycle-skipped")
             continue
+        if time.process_time() - t0 > 0.5 or len(exp) > 20000:
+            # the call DAG multiplied: one expansion of such a case costs many seconds
+            obs.count("oversized-case-skipped")
+            continue
         got = run_real(lib, page)
+        if LAST["loop-warning"]:
+            obs.count("loop-warning-on-acyclic-library")
         obs.check("expand==reference")
         for k, v in r.rules.items():
             obs.count("rule." + k, v)
@@ -272,15 +880,41 @@ def run_shard(spec):
                  sample={"page": src[:200], "library": {n: G.render(b)[:120] for n, b in lib.items()}, "expected": exp[:200]})
         if got != exp:
             obs.count("disagreements")
+            # Classes that were already minimised and reported three times in this shard are taken out of the case
+            # (their trigger feature is ablated); what still disagrees then has another mechanism in it and goes to
+            # the minimiser, what agrees is only counted.  Keeps a frequent class from using up the minimiser budget.
+            lib1, page1, d = lib, page, (exp, got)
+            peeled = []
+            f = features(lib, page)
+            for name, feat, fn in ABLATIONS:
+                if name in PEELABLE and reported.get(name, 0) >= 3 and feat in f:
+                    try:
+                        l2, p2 = fn(lib1, page1)
+                    except Cycle:
+                        continue
+                    lib1, page1 = l2, p2          # (these ablations keep the call structure: still acyclic, well-formed)
+                    peeled.append(name)
+            if peeled:
+                d = disagree(lib1, page1)
+                if d is None:
+                    obs.count("disagreements-of-reported-class." + "+".join(peeled))
+                    continue
+            pre = (ablation_classes(lib1, page1, d[1], first_only=True, only=NOT_PEELED) or [None])[0]
+            if pre is not None and reported.get(pre, 0) >= 3:
+                obs.count("disagreements-of-reported-class." + pre)
+                continue
             if minimised < 60:
                 minimised += 1
-                lib2, page2 = minimise(lib, page)
-                d = disagree(lib2, page2)
-                if d is None:   # should not happen; fall back to the unminimised case
-                    lib2, page2, d = lib, page, (exp, got)
-                sig = classify(lib2, page2, d[0], d[1], cls)
+                lib2, page2 = minimise(lib1, page1)
+                d2 = disagree(lib2, page2)
+                if d2 is None:   # should not happen; fall back to the unminimised case
+                    lib2, page2, d2 = lib1, page1, d
+                sig = classify(lib2, page2, d2[0], d2[1], cls)
+                if sig.startswith(CLASS_PREFIX):
+                    for label in sig[len(CLASS_PREFIX):].split("+"):
+                        reported[label] = reported.get(label, 0) + 1
                 obs.violation(sig, "page=%r lib=%r expected=%r got=%r" % (
-                    G.render(page2), {n: G.render(b) for n, b in lib2.items()}, d[0], d[1]),
+                    G.render(page2), {n: G.render(b) for n, b in lib2.items()}, d2[0], d2[1]),
                     {"lib": lib2, "page": page2, "cls": cls})
             else:
                 obs.count("disagreements-not-minimised")
